@@ -82,7 +82,7 @@ OnPeer == Is("peer") /\ PeerBytes(Ev.bytes) /\ Consume
 OnEof == (Is("eof") \/ Is("rerr")) /\ PeerClose /\ Consume
 OnWerr == Is("werr") /\ WriteBreaks /\ Consume
 OnTick == Is("tick") /\ Tick(Ev.d) /\ Consume
-OnConn == Is("connector") /\ ConnectorResult(Ev.res) /\ Consume
+OnConn == Is("connector") /\ (IF Ev.race THEN ConnectorResultRacing(Ev.res) ELSE ConnectorResult(Ev.res)) /\ Consume
 
 OnQuiet == Is("q") /\ Quiescent /\ UNCHANGED <<s, out>> /\ Consume
 
